@@ -1,8 +1,10 @@
-"""Planted positives for C17.R2 (never imported; parsed with ast on every run).
+"""Planted positives for C17.R2 / C17.R5 (never imported; parsed with ast on every run).
 
 reader_advances_on_id_line: the cursor moves when the id line is seen; a drop before the data line
 resumes after an event that was never handed over.
 iterate_yields_first: the event is yielded before the published sequence is updated.
+reader_resumes_from_consumer_cursor: the reconnect header carries the consumer's cursor (queued events are requested again).
+reader_resumes_from_stale_cursor: the reconnect header is the reader's cursor computed once, before the retry loop.
 """
 
 
@@ -24,3 +26,36 @@ class Stream:
             item = await self._queue.get()
             yield item.event
             self._last_sequence = item.sequence
+
+
+async def reader_resumes_from_consumer_cursor(client, stream, queue, after_sequence):
+    """C17.R5 planted: on a reconnect the header the server prefers carries the consumer's cursor."""
+    last_sequence = after_sequence
+    attempts = 0
+    while True:
+        headers = {"Connection": "keep-alive"}
+        if attempts > 0:
+            headers["Last-Event-ID"] = str(stream.last_sequence)
+        try:
+            async with client.stream("GET", "/events/x", params={"after_sequence": str(last_sequence)}, headers=headers) as response:
+                async for line in response.aiter_lines():
+                    last_sequence = int(line)
+                    await queue.put((last_sequence, line))
+            return
+        except ConnectionError:
+            attempts += 1
+
+
+async def reader_resumes_from_stale_cursor(client, queue, after_sequence):
+    """C17.R5 planted: the header is computed from the reader's cursor, but once, before the retry loop."""
+    last_sequence = after_sequence
+    headers = {"Last-Event-ID": str(last_sequence)}
+    while True:
+        try:
+            async with client.stream("GET", "/events/x", params={"after_sequence": str(last_sequence)}, headers=headers) as response:
+                async for line in response.aiter_lines():
+                    last_sequence = int(line)
+                    await queue.put((last_sequence, line))
+            return
+        except ConnectionError:
+            pass
